@@ -61,6 +61,10 @@ def build_reader(d, layout):
                 f.write(np.ascontiguousarray(A[i0:i0 + ln]).tobytes())
             paths.append(p)
             i0 += ln
+        if int(layout.get('fill', 0)) % 3 == 1:
+            paths = [str(p) for p in paths]          # file names given as strings
+        elif int(layout.get('fill', 0)) % 3 == 2:
+            paths = tuple(paths)                     # ... or the list as a tuple
         reader = get_ephys_reader(paths, n_channels_dat=nc, dtype=dt, offset=off, sample_rate=sr)
         return reader, A
     assert len(layout['parts']) == 1
@@ -69,7 +73,7 @@ def build_reader(d, layout):
     if backend == 'npy':
         p = d / 'rec.npy'
         np.save(p, A)
-        arg = [p] if layout.get('fill', 0) % 2 else p
+        arg = [[p], p, str(p), [str(p)]][layout.get('fill', 0) % 4]
         return get_ephys_reader(arg, sample_rate=sr, n_channels_dat=nc, dtype=dt, offset=0), A
     if backend in ('cbin', 'cbin_reader'):
         mtscomp.CONFIG_PATH = d / 'no-such-mtscomp-config'
